@@ -684,3 +684,118 @@ fn builder_one(m: &dyn Machine, ms: &MachineSpec, full_w: u32, cap: u128, rep: &
     fam.transitions += rep.transitions - t0;
     fam.violations += rep.violation_count - v0;
 }
+
+// ------------------------------------------------------------------------------------------------
+// C19: `debug` output vs a derive(Debug) twin filled from the reference register
+
+pub fn debug(machines: &[(&dyn Machine, &MachineSpec)], full_n: u32, threads: usize) -> Report {
+    let start = Instant::now();
+    let mut rep = Report { mode: "debug".into(), exhaustive: true, ..Default::default() };
+    let sel: Vec<_> = machines.iter().filter(|(_, ms)| ms.debug).collect();
+    let next = std::sync::atomic::AtomicUsize::new(0);
+    let parts: Vec<Report> = std::thread::scope(|sc| {
+        let hs: Vec<_> = (0..threads.max(1))
+            .map(|_| {
+                sc.spawn(|| {
+                    let mut rep = Report::default();
+                    loop {
+                        let i = next.fetch_add(1, std::sync::atomic::Ordering::Relaxed);
+                        if i >= sel.len() {
+                            break;
+                        }
+                        debug_one(sel[i].0, sel[i].1, full_n, &mut rep, i);
+                    }
+                    rep
+                })
+            })
+            .collect();
+        hs.into_iter().map(|h| h.join().unwrap()).collect()
+    });
+    for p in parts {
+        rep.machines += p.machines;
+        rep.fields += p.fields;
+        rep.states += p.states;
+        rep.transitions += p.transitions;
+        rep.compared += p.compared;
+        rep.distinct_outcomes += p.distinct_outcomes;
+        rep.violation_count += p.violation_count;
+        for v in p.violations {
+            if rep.violations.len() < 40 {
+                rep.violations.push(v);
+            }
+        }
+        for s in p.samples {
+            if rep.samples.len() < 6 {
+                rep.samples.push(s);
+            }
+        }
+        for (k, v) in p.per_family {
+            let e = rep.per_family.entry(k).or_default();
+            e.fields += v.fields;
+            e.transitions += v.transitions;
+            e.states += v.states;
+            e.violations += v.violations;
+        }
+    }
+    rep.wall_s = start.elapsed().as_secs_f64();
+    rep
+}
+
+fn debug_one(m: &dyn Machine, ms: &MachineSpec, full_n: u32, rep: &mut Report, i: usize) {
+    rep.machines += 1;
+    rep.fields += ms.fields.len() as u64;
+    let states: Vec<u128> = if ms.n <= full_n { (0..(1u128 << ms.n)).collect() } else { state_alpha(ms.n, &ms.fields) };
+    let pos: Vec<Vec<u32>> = ms.fields.iter().map(|f| positions(f, 0)).collect();
+    let t0 = rep.transitions;
+    let v0 = rep.violation_count;
+    let mut distinct = std::collections::HashSet::new();
+    for &s in &states {
+        rep.states += 1;
+        let vals: Vec<u128> = ms.fields.iter().zip(&pos).map(|(f, p)| encode_get(f, ref_get(s, p))).collect();
+        for alt in [false, true] {
+            rep.transitions += 2;
+            rep.compared += 1;
+            let got = call(|| m.dbg(m.init(s), alt).expect("no dbg adapter"));
+            let want = call(|| m.dbg_twin(&vals, alt).expect("no twin adapter")).expect("machinery: twin formatting panicked");
+            let trace = vec![Step::init(s), Step::op("dbg", alt as usize, 0, 0)];
+            match got {
+                Ok(g) => {
+                    if distinct.len() < 4096 {
+                        distinct.insert(g.clone());
+                    }
+                    if g != want {
+                        rep.violation_count += 1;
+                        if rep.violations.len() < 40 {
+                            let mut v = Violation::new("debug_text", ms, None, trace, expect_text(&want), g);
+                            v.spec = ms.clone();
+                            v.field_text = ms.fields.iter().map(|f| f.text.clone()).collect::<Vec<_>>().join(", ");
+                            rep.violations.push(v);
+                        }
+                    }
+                }
+                Err(_) => {
+                    rep.violation_count += 1;
+                    if rep.violations.len() < 40 {
+                        let mut v = Violation::new("panic", ms, None, trace, expect_text(&want), "Panicked".into());
+                        v.spec = ms.clone();
+                        rep.violations.push(v);
+                    }
+                }
+            }
+        }
+    }
+    rep.distinct_outcomes += distinct.len() as u64;
+    if rep.samples.len() < 6 && i % 23 == 0 {
+        let s = states[states.len() / 2];
+        rep.samples.push(serde_json::json!({
+            "decl": format!("{} {{ {} }}", ms.head, ms.fields.iter().map(|f| f.text.clone()).collect::<Vec<_>>().join(", ")),
+            "trace": format!("format!(\"{{:?}}\", new_with_raw_value({s:#x}))"),
+            "expected_and_observed": m.dbg(m.init(s), false),
+        }));
+    }
+    let fam = rep.per_family.entry(ms.family.clone()).or_default();
+    fam.fields += ms.fields.len() as u64;
+    fam.states += states.len() as u64;
+    fam.transitions += rep.transitions - t0;
+    fam.violations += rep.violation_count - v0;
+}
